@@ -17,7 +17,9 @@
 (*                     property can be read against (non-numeric/overflow) *)
 (*   body    Seq(byte) the bytes delivered after the empty line            *)
 (*   end     "close" | "stall"                                             *)
-(*   alt, althdrs      only for the deviation hdr_as_status (see below)    *)
+(*   alt, althdrs, altclnums, altclbad   the same stream read with its     *)
+(*                     first header line as status line (only for the      *)
+(*                     deviation hdr_as_status, see View)                  *)
 (* result r: [k : "ok"|"err"|"panic"|"hang", status, hdrs, body]           *)
 (*                                                                         *)
 (* The property pins: Ok => header block complete, the status is THE       *)
@@ -31,9 +33,9 @@
 (***************************************************************************)
 EXTENDS VerifIO
 
-Count(x, s) == Cardinality({i \in DOMAIN s : s[i] = x})
-\* every header sent is returned (as a bag; order and extra entries are not pinned)
-HdrsIncluded(req, got) == \A i \in DOMAIN req : Count(req[i], got) >= Count(req[i], req)
+\* every header sent is returned (name compared case-insensitively, value trimmed - the recorder
+\* normalises both sides); order, multiplicity and extra entries are not pinned
+HdrsIncluded(req, got) == \A i \in DOMAIN req : \E j \in DOMAIN got : got[j] = req[i]
 
 MinOf(S) == CHOOSE x \in S : \A y \in S : x <= y
 \* the declared Content-Length the body may not be shorter than; with conflicting
@@ -49,22 +51,23 @@ BodyChoices(o) == {o.body} \cup {SubSeq(o.body, 1, c) : c \in {x \in o.clnums : 
 \*                    line is read as one (its second token becomes the status)
 Devs == {"ignore_cl", "hdr_as_status"}
 
-StatusOk(o, r, D) ==
-  \/ /\ o.status # NULL
-     /\ r.status = o.status
-     /\ HdrsIncluded(o.hdrs, r.hdrs)
-  \/ /\ "hdr_as_status" \in D
-     /\ o.status = NULL /\ o.alt # NULL
-     /\ r.status = o.alt
-     /\ HdrsIncluded(o.althdrs, r.hdrs)
+\* what the stream looks like to a client with deviation set D: under hdr_as_status a stream
+\* without status line is read with its first header line as the status line, so that line is
+\* neither a header nor (if it was one) a Content-Length declaration any more
+View(o, D) == IF "hdr_as_status" \in D /\ o.status = NULL /\ o.alt # NULL
+              THEN [o EXCEPT !.status = o.alt, !.hdrs = o.althdrs, !.clnums = o.altclnums, !.clbad = o.altclbad]
+              ELSE o
 
 OkAllowed(o, r, D) ==
+  LET w == View(o, D) IN
   /\ o.hc
-  /\ StatusOk(o, r, D)
-  /\ r.body \in BodyChoices(o)
+  /\ w.status # NULL
+  /\ r.status = w.status
+  /\ HdrsIncluded(w.hdrs, r.hdrs)
+  /\ r.body \in BodyChoices(w)
   /\ \/ "ignore_cl" \in D
-     \/ PinnedCL(o) = NULL
-     \/ Len(r.body) >= PinnedCL(o)
+     \/ PinnedCL(w) = NULL
+     \/ Len(r.body) >= PinnedCL(w)
 
 \* an error is always an allowed answer; a panic or a hang past the deadline never is
 Allowed(o, r, D) == \/ r.k = "err"
